@@ -902,6 +902,22 @@ def ttl_family():  # noqa: ANN201
                                    "always_checkpoint": ac, "calls": calls, "clears": []}  # fmt: skip
 
 
+def s1_alias_family():  # noqa: ANN201
+    """1, 1.0 and True (equal, differently typed) in every order, typed on/off, positional and
+    by keyword, small and unbounded caches: with typed=True they are three keys, else one"""
+    import itertools as _it
+
+    for cfg in ("stock", "eager"):
+        for typed in (False, True):
+            for kw in (False, True):
+                for ms in (None, 1, 2, 3):
+                    for perm in _it.permutations((0, 5, 6)):
+                        seq = [[k, 0] for k in perm] + [[k, 0] for k in perm[::-1]] + [[1, 0], [perm[0], 0]]
+                        yield {"stratum": "S1", "cfg": cfg, "maxsize": ms, "typed": typed, "ttl": None,
+                               "always_checkpoint": False, "seq": seq, "probe": [0, 5, 6], "alias": True,
+                               "kw": kw, "precancelled": []}  # fmt: skip
+
+
 def f19_witness_cases():  # noqa: ANN201
     """the history of witnesses/F19_expiry_with_waiters_queued.py: a holder and two queued
     callers, ttl=0, fresh callers arriving around the completion"""
@@ -933,6 +949,7 @@ def all_cases(tier: str, seed: int):  # noqa: ANN201
     yield from f19_witness_cases()
     yield from s4_family()
     yield from s5_family()
+    yield from s1_alias_family()
     yield from ttl_family()
     rng4 = random.Random(seed * 4001 + 4)
     for _ in range(8000 if tier == "thorough" else 800):
